@@ -264,7 +264,7 @@ def check_case(ctx, case):
 def run_shard(ctx):
     acc = ctx.acc
     rng = ctx.rng("conn")
-    n = 4000 if ctx.quick() else 150000
+    n = 16000 if ctx.quick() else 400000
     for j in range(n):
         if ctx.out_of_time():
             acc.notes.append("time budget reached after %d docs" % j)
